@@ -236,8 +236,18 @@ def main():
                 except Exception as e:
                     out['results'].append({'driver_error': '%s: %s' % (type(e).__name__, e), 'traceback': traceback.format_exc()[-1500:]})
         elif sc['kind'] == 'finding':
-            import c20_findings
-            out = c20_findings.run(sc['name'])
+            # re-run the recorded witness program of a known finding (known_findings.d/C20.json); reproduced = it still fails
+            import os
+            fs = json.load(open(os.path.join(os.path.dirname(os.path.dirname(os.path.abspath(__file__))), 'known_findings.d', 'C20.json')))['findings']
+            out = {'kind': 'finding', 'results': []}
+            for f in fs:
+                if sc.get('obligation') and f['obligation'] != sc['obligation']:
+                    continue
+                try:
+                    exec(compile(f['witness'], '<witness>', 'exec'), {'__name__': '__witness__'})
+                    out['results'].append({'obligation': f['obligation'], 'reproduced': False})
+                except Exception as e:
+                    out['results'].append({'obligation': f['obligation'], 'reproduced': True, 'failure': '%s: %s' % (type(e).__name__, str(e)[:160])})
         elif sc['kind'] == 'imports':
             out = {'kind': 'imports', 'modules': {}}
             for m in sc['modules']:
